@@ -62,8 +62,15 @@ def _invert_type(t: Union[str, List[str]]):
     return {'type': list(set(ALL_TYPES) - set(t))}
 
 
+def _negate(schema):
+    # NOT(NOT(x)) = x, otherwise negating a recursive reference grows by one 'not' on every round
+    if isinstance(schema, dict) and list(schema.keys()) == ['not']:
+        return schema['not']
+    return {'not': schema}
+
+
 def _invert_properties(props: dict):
-    new_props = {name: {'not': prop} for name, prop in props.items()}
+    new_props = {name: _negate(prop) for name, prop in props.items()}
     return {
         'type': 'object',
         'properties': new_props,
@@ -74,7 +81,7 @@ def _invert_properties(props: dict):
 def _invert_items(items: dict):
     return {
         'type': 'array',
-        'items': {'not': items}
+        'items': _negate(items)
     }
 
 
